@@ -87,7 +87,7 @@ def run(model: RepoModel, rep, tier: str):
                 n_sites += 1
                 arg = c.args[0]
                 parts = list(dict.fromkeys(_program_text_parts(arg, f)))
-                key = f"{f.ref}::{cn}({norm(arg)})"
+                key = f"{f.ref}::`{cn}({norm(arg)})`"
                 composed = isinstance(arg, (ast.JoinedStr, ast.BinOp))
                 if isinstance(arg, ast.Name):
                     # definitions that can reach the call: assigned earlier in the function (the call's own statement re-binds the name)
@@ -243,7 +243,7 @@ def check_regex_escape(model: RepoModel, rep, RID: str, only=None):
                     continue
                 pat = c.args[0]
                 n_re += 1
-                key = f"{f.ref}::{cn}({norm(pat)[:60]})"
+                key = f"{f.ref}::`{cn}({norm(pat)[:60]})`"
                 if isinstance(pat, ast.Constant):
                     rep.holds(RID, key, rel, c.lineno, "constant pattern")
                     continue
@@ -373,9 +373,11 @@ def check_accumulating_loops(model: RepoModel, rep, RID: str):
             enc = enclosing_map(f.node)
 
             def accumulates(loop) -> bool:
+                # attribute based (stable under renaming of locals): something.states / status.defined_states / *.tangping_elements grows;
+                # accumulation into plain locals is the business of the generic rule (R6)
                 for x in ast.walk(loop):
                     if isinstance(x, ast.Call) and isinstance(x.func, ast.Attribute) and x.func.attr in ("add", "update") \
-                            and "states" in norm(x.func.value):
+                            and isinstance(x.func.value, ast.Attribute) and ("states" in x.func.value.attr or "elements" in x.func.value.attr):
                         return True
                 return False
             loops = [n for n in walk_no_nested(f.node) if isinstance(n, ast.For) and accumulates(n)]
@@ -483,7 +485,7 @@ MUTANTS = [
      "GlobalStmtStates.parameter_decl_stmt_state::break"),
     ("field-read-first-receiver-only", "core/stmt_states.py",
      _t("                defined_symbol_states.update(receiver_state.tangping_elements)\n", "                defined_symbol_states.update(receiver_state.tangping_elements)\n                break\n"),
-     "forin_stmt_state::break"),
+     "forin_stmt_state"),
     ("rejection-escapes", "core/stmt_states.py",
      _t('            value = util.strict_eval(f"{tmp_value1} {operator} {tmp_value2}")\n        except:', '            value = util.strict_eval(f"{tmp_value1} {operator} {tmp_value2}")\n        except Exception:'),
      "compute_two_states::strict_eval rejection is contained"),
